@@ -62,6 +62,11 @@ def run(ctx: Any, prog: Program) -> None:
         g_ = guards_[0]
         t_ = g_.test
         subj = None
+        # every name that unify_path returns has passed the escape test: no `return` stands in front of it (a fast path for names that
+        # "are already clean" hands `../x` back untested)
+        early5 = [r for r in walk_no_nested(up) if isinstance(r, ast.Return) and r.lineno < g_.lineno]
+        ctx.check('C18.S5', not early5, pk, early5[0] if early5 else g_, f'unify_path returns (`{U(early5[0])[:40] if early5 else ""}`, line {early5[0].lineno if early5 else 0}) before the escape test of line {g_.lineno}: names taking that '
+                  'path are handed back without having been checked for `..` components, so a pack name can point outside the game root', func='unify_path', text='no return in front of the escape test')
         if isinstance(t_, ast.Compare) and len(t_.ops) == 1 and isinstance(t_.ops[0], ast.In):
             subj = t_.comparators[0]
         else:
@@ -344,6 +349,7 @@ def run(ctx: Any, prog: Program) -> None:
 
 
 MUTANTS = [
+    {'id': 'unify_path_fast_path_skips_the_test', 'file': 'packlist.py', 'find': "    path = os.path.normpath(path).casefold().replace('\\\\', '/')\n    if '../' in path:", 'replace': "    if path.islower() and '\\\\' not in path:\n        return path\n    path = os.path.normpath(path).casefold().replace('\\\\', '/')\n    if '../' in path:", 'expect': 'C18.S5', 'note': 'round 12'},
     {'id': 'absolute_names_checked_unnormalised', 'file': 'filesys.py', 'find': "        abs_path = os.path.abspath(os.path.join(self.path, path))\n", 'replace': "        if os.path.isabs(path):\n            abs_path = path\n        else:\n            abs_path = os.path.normpath(os.path.join(self.path, path))\n", 'expect': 'C18.S3'},
     {'id': 'chain_mounts_subfolder_as_new_root', 'file': 'filesys.py', 'find': "        if priority:\n            self.systems.insert(0, (sys, prefix))", 'replace': "        if prefix and isinstance(sys, RawFileSystem):\n            sys = RawFileSystem(os.path.join(sys.path, prefix), sys.constrain_path)\n            prefix = ''\n        if priority:\n            self.systems.insert(0, (sys, prefix))", 'expect': 'C18.S4'},
     {'id': 'containment_by_zipped_components', 'file': 'filesys.py', 'find': "        if self.constrain_path and abs_path != self.path and not abs_path.startswith(os.path.join(self.path, '')):\n            raise RootEscapeError(self.path, path)", 'replace': "        if self.constrain_path and any(ours != theirs for ours, theirs in zip(self.path.split(os.sep), abs_path.split(os.sep))):\n            raise RootEscapeError(self.path, path)", 'expect': 'C18.S1'},
